@@ -76,7 +76,7 @@ type c11BlockOpts struct {
 }
 
 func c11DefaultOpts() c11BlockOpts {
-	wide := 60
+	wide := 40
 	if v, err := strconv.Atoi(os.Getenv("VERIF_C11_WIDE_EVERY")); err == nil {
 		wide = v
 	}
@@ -90,6 +90,10 @@ const c11NSPool = 6
 
 // c11BlobDataLen draws a payload length for a size class. first = payload bytes of a first share.
 func c11BlobDataLen(t *rapid.T, label string, class string, first int) int {
+	if class == "big-in-row" { // 65..90 shares: with a few shares in front it ends inside a 128-wide row
+		n := rapid.IntRange(65, 90).Draw(t, label+".shares")
+		return first + (n-2)*libshare.ContinuationSparseShareContentSize + rapid.IntRange(1, libshare.ContinuationSparseShareContentSize).Draw(t, label+".rem")
+	}
 	cont := libshare.ContinuationSparseShareContentSize
 	switch class {
 	case "1B":
@@ -161,9 +165,9 @@ func c11GenBlock(t *rapid.T, label string, o c11BlockOpts) *c11Block {
 	wide := o.WideEvery > 0 && wideDraw%uint32(o.WideEvery) == 0
 	if wide {
 		// keep the ordinary blobs inside the first rows of the 128-wide square and below the filler
-		budget = 220
-		if nBlobs < 3 {
-			nBlobs = 3
+		budget = 300
+		if nBlobs < 5 {
+			nBlobs = 5
 		}
 		for i := range used {
 			if used[i] == c11NSPool-1 {
@@ -175,8 +179,8 @@ func c11GenBlock(t *rapid.T, label string, o c11BlockOpts) *c11Block {
 		l := fmt.Sprintf("%s.b%d", label, i)
 		g := &c11GenBlob{DupOf: -1}
 		kind := rapid.IntRange(0, 9).Draw(t, l+".kind")
-		if wide && i < 3 {
-			kind = 9 // the first three blobs of a wide block: small, >= 65 shares, small - one namespace
+		if wide && i < 5 {
+			kind = 9 // the first five blobs of a wide block: small, >= 65 shares, small, >= 65 shares, small - one namespace
 		}
 		switch {
 		case kind == 0 && len(blk.Blobs) > 0:
@@ -215,8 +219,8 @@ func c11GenBlock(t *rapid.T, label string, o c11BlockOpts) *c11Block {
 				classes = classes[:len(classes)-1]
 			}
 			class := rapid.SampledFrom(classes).Draw(t, l+".class")
-			if wide && i < 3 {
-				class = rapid.SampledFrom([][]string{{"1B", "share+1", "few"}, {"big"}, {"1B", "share", "few"}}[i]).Draw(t, l+".wideclass")
+			if wide && i < 5 {
+				class = rapid.SampledFrom([][]string{{"1B", "share+1", "few"}, {"big-in-row"}}[i%2]).Draw(t, l+".wideclass")
 			}
 			ver := uint8(rapid.IntRange(0, 1).Draw(t, l+".ver"))
 			first := libshare.FirstSparseShareContentSize
@@ -226,7 +230,7 @@ func c11GenBlock(t *rapid.T, label string, o c11BlockOpts) *c11Block {
 			}
 			n := c11BlobDataLen(t, l, class, first)
 			nsIdx := used[rapid.IntRange(0, nsCount-1).Draw(t, l+".ns")]
-			if wide && i < 3 {
+			if wide && i < 5 {
 				nsIdx = used[0]
 			}
 			data := fill(n)
@@ -284,30 +288,78 @@ func c11GenBlock(t *rapid.T, label string, o c11BlockOpts) *c11Block {
 	}
 	blk.NormalTxs = nNormal
 	// group blobs into BlobTxs of 1..4 blobs, in generation order
+	type group struct {
+		from, n int
+		inner   []byte
+	}
+	var groups []group
 	for i := 0; i < len(blk.Blobs); {
 		k := rapid.IntRange(1, 4).Draw(t, fmt.Sprintf("%s.group%d", label, i))
 		if i+k > len(blk.Blobs) {
 			k = len(blk.Blobs) - i
 		}
-		txIdx := len(blk.Txs) - nNormal
-		libs := make([]*libshare.Blob, k)
-		for j := 0; j < k; j++ {
-			blk.Blobs[i+j].Tx, blk.Blobs[i+j].PosInTx = txIdx, j
-			libs[j] = blk.Blobs[i+j].Lib
-		}
 		inner := fill(rapid.SampledFrom([]int{1, 90, 330}).Draw(t, fmt.Sprintf("%s.inner%d", label, i)))
 		inner[0] = 0x07
-		raw, err := tx.MarshalBlobTx(inner, libs...)
-		if err != nil {
-			t.Fatalf("VERIF-INFRA: MarshalBlobTx: %v", err)
-		}
-		blk.Txs = append(blk.Txs, raw)
+		groups = append(groups, group{i, k, inner})
 		i += k
 	}
-	if err := blk.build(); err != nil {
-		t.Fatalf("VERIF-INFRA: %v", err)
+	normal := blk.Txs
+	assemble := func() {
+		blk.Txs = append([][]byte(nil), normal...)
+		for gi, g := range groups {
+			libs := make([]*libshare.Blob, g.n)
+			for j := 0; j < g.n; j++ {
+				blk.Blobs[g.from+j].Tx, blk.Blobs[g.from+j].PosInTx = gi, j
+				libs[j] = blk.Blobs[g.from+j].Lib
+			}
+			raw, err := tx.MarshalBlobTx(g.inner, libs...)
+			if err != nil {
+				t.Fatalf("VERIF-INFRA: MarshalBlobTx: %v", err)
+			}
+			blk.Txs = append(blk.Txs, raw)
+		}
+		if err := blk.build(); err != nil {
+			t.Fatalf("VERIF-INFRA: %v", err)
+		}
+	}
+	assemble()
+	if wide && !blk.HasBlobAfterPaddedBlobInRow() {
+		// Whether alignment padding precedes the first >= 65-share blob depends on the parity of the
+		// share index the small blob in front of it ends at. If there is none, make that small blob
+		// one share longer and lay the block out again (still a function of the drawn values only).
+		g := blk.Blobs[0]
+		var signer []byte
+		if g.Lib.Signer() != nil {
+			signer = append([]byte(nil), g.Lib.Signer()...)
+		}
+		data := append(append([]byte(nil), g.Lib.Data()...), fill(libshare.ContinuationSparseShareContentSize)...)
+		lib, err := libshare.NewBlob(g.Lib.Namespace(), data, g.Lib.ShareVersion(), signer)
+		if err != nil {
+			t.Fatalf("VERIF-INFRA: NewBlob: %v", err)
+		}
+		com, err := inclusion.CreateCommitment(lib, merkle.HashFromByteSlices, appconsts.SubtreeRootThreshold)
+		if err != nil {
+			t.Fatalf("VERIF-INFRA: CreateCommitment: %v", err)
+		}
+		g.Lib, g.Commitment, g.Shares = lib, com, g.Shares+1
+		assemble()
 	}
 	return blk
+}
+
+// HasBlobAfterPaddedBlobInRow reports whether some blob starts in the row in which a blob of its
+// namespace that is preceded by namespace padding started (the parser then has to carry the
+// skipped padding in its column cursor).
+func (b *c11Block) HasBlobAfterPaddedBlobInRow() bool {
+	for _, ns := range b.NamespacesPresent() {
+		ref := b.RefNamespace(ns)
+		for i := 1; i < len(ref); i++ {
+			if b.PaddingBefore(ref[i-1]) > 0 && ref[i].Start/b.ODS == ref[i-1].Start/b.ODS {
+				return true
+			}
+		}
+	}
+	return false
 }
 
 // c11BlobSpec describes one blob of a hand-written block (fixed witnesses).
